@@ -11,8 +11,9 @@
                 lists, normal entries, solid entries, read entries, entry parts and the halves of EntryPart::split;
                 length of a whole archive = 8 + 20 + counts + 12
      sizes      compressed size = sum of the data payloads; raw size = value of the last fSIZ chunk
-   The sizes of a BUILT entry (raw size = content length for every call partition, codec, cipher) belong to the
-   pipeline area (Props/C01*.v) and are checked here on the implementation by the `sizes` cases. *)
+   The sizes of a BUILT entry (raw size = content length for every call partition, codec, cipher) are stated in
+   Props/C18_pipeline.v (C18_built_sizes, on the pipeline model) and checked on the implementation by the `sizes`
+   cases here and by the `pipeline` correspondence. *)
 From PNA Require Import Base Crc32 Codec Chunk Archive Entry BaseFacts ChunkFacts ArchiveFacts EntryFacts OffsetFacts.
 From PNA Require Split ArchiveRun.
 Open Scope N_scope.
